@@ -1,4 +1,5 @@
 //! One module per property, plus shared oracles and drivers.
+pub mod bprog;
 pub mod drive;
 pub mod oracles;
 
@@ -9,9 +10,12 @@ pub mod c06;
 pub mod c07;
 pub mod c10;
 pub mod c11;
+pub mod c15;
+pub mod c16;
+pub mod c17;
 
 use crate::engine::DynProperty;
 
 pub fn registry() -> Vec<Box<dyn DynProperty>> {
-    vec![Box::new(c01::C01), Box::new(c02::C02), Box::new(c03::C03), Box::new(c06::C06), Box::new(c07::C07), Box::new(c10::C10), Box::new(c11::C11)]
+    vec![Box::new(c01::C01), Box::new(c02::C02), Box::new(c03::C03), Box::new(c06::C06), Box::new(c07::C07), Box::new(c10::C10), Box::new(c11::C11), Box::new(c15::C15), Box::new(c16::C16), Box::new(c17::C17)]
 }
